@@ -245,6 +245,24 @@ class Ctx:
             self._record(self._best[1])
         return
 
+    def replay_known_findings(self):
+        """Re-execute the stored minimal input of every listed known finding of this property, so that each one is
+        reproduced (and printed as KNOWN-FINDING) at every seed, and a finding that no longer reproduces is visible."""
+        for (clause, key), e in sorted(self.known.items()):
+            rp = e.get("replay")
+            if not rp:
+                continue
+            path = os.path.join(VERIF, rp)
+            try:
+                with open(path) as f:
+                    body = json.load(f)
+            except FileNotFoundError:
+                raise HarnessError(f"known finding {clause}|{key}: replay file {rp} missing")
+            before = self.known_seen[(clause, key)]
+            self.call(body["check"], jsonable.from_plain(body["case"]))
+            if self.known_seen[(clause, key)] == before:
+                self.extra.setdefault("known_findings_not_reproduced", []).append(f"{clause}|{key}")
+
     def collect(self, name, strategy, k):
         """k seeded examples of a strategy (payloads for enumerated case spaces)."""
         import hypothesis
